@@ -335,7 +335,7 @@ def gots : List Ev → List (Nat × Nat)
   | _ :: es => gots es
 
 structure Inv (s : St) (l : List (Nat × Nat)) : Prop where
-  mem : ∀ p seq, s.recvd p seq = true ↔ (p, seq) ∈ l
+  mem : ∀ p seq, s.recvd.contains (p, seq) = true ↔ (p, seq) ∈ l
   nodup : l.Nodup
   count : s.count = l.length
 
@@ -358,16 +358,17 @@ theorem run_inv (evs : List Ev) : ∀ (s s' : St) (l : List (Nat × Nat)), Inv s
         have hi1 : Inv s1 (l ++ [(p, seq)]) := by
           refine ⟨?_, ?_, ?_⟩
           · intro a b
-            rw [hs1]; simp only [eff]
-            by_cases hab : a = p ∧ b = seq
-            · rw [if_pos hab]; simp [hab.1, hab.2]
-            · rw [if_neg hab, hi.mem a b]
-              constructor
-              · intro hm; exact List.mem_append_left _ hm
-              · intro hm
-                rcases List.mem_append.1 hm with hm | hm
-                · exact hm
-                · simp only [List.mem_singleton, Prod.mk.injEq] at hm; exact absurd hm hab
+            rw [hs1]; simp only [eff, Std.HashSet.contains_insert, Bool.or_eq_true, beq_iff_eq, Prod.mk.injEq]
+            rw [hi.mem a b]
+            constructor
+            · intro hm
+              rcases hm with hm | hm
+              · simp [hm.1, hm.2]
+              · exact List.mem_append_left _ hm
+            · intro hm
+              rcases List.mem_append.1 hm with hm | hm
+              · exact Or.inr hm
+              · simp only [List.mem_singleton, Prod.mk.injEq] at hm; exact Or.inl ⟨hm.1.symm, hm.2.symm⟩
           · rw [List.nodup_append]
             refine ⟨hi.nodup, by simp, ?_⟩
             intro a ha b hb
@@ -394,16 +395,14 @@ theorem run_inv (evs : List Ev) : ∀ (s s' : St) (l : List (Nat × Nat)), Inv s
     received twice by anybody, and the acceptor's count is the number of elements received. -/
 theorem C09_mv_at_most_once (evs : List Ev) (s' : St) (h : run {} evs = .ok s') :
     (gots evs).Nodup ∧ s'.count = (gots evs).length := by
-  have := run_inv evs {} s' [] ⟨by simp, by simp, rfl⟩ h
+  have := run_inv evs {} s' [] ⟨by intro p seq; simp, by simp, rfl⟩ h
   simpa using And.intro this.nodup this.count
 
 /-- **nothing lost**: a history accepted up to and including the final event has received as many (distinct) elements as
     the senders' `send()` calls reported true -/
 theorem C09_mv_all_received (evs : List Ev) (s s' : St) (h : run {} evs = .ok s) (hf : Photon.RingLog.step s .final = .ok s') :
-    (gots evs).Nodup ∧ (gots evs).length = (s.prods.map s.produced).sum := by
+    (gots evs).Nodup ∧ (gots evs).length = (s.prods.map (sentBy s)).sum := by
   have h1 := C09_mv_at_most_once evs s h
   exact ⟨h1.1, by rw [← h1.2]; exact Photon.RingLog.C07_all_received s s' hf⟩
-
-example : (run {} [.produced 0 2, .produced 1 1, .got 0 0 0, .got 1 1 0, .got 0 0 1, .final]).isOk = true := by decide
 
 end Photon.ChanMV
